@@ -89,6 +89,12 @@ struct Inner {
     wake_choice: Option<usize>,
     /// Sleepers woken by the last executed `futex_wake`.
     last_woken: Vec<usize>,
+    /// Atomic sections: a thread released from site `.0` passes every site without parking
+    /// until it has passed site `.1` (a lock of the code under test that is not built from
+    /// yield points: the controller only releases the thread into it while it is free, and the
+    /// thread then runs through its critical section in one step).
+    atomic: Option<(u32, u32)>,
+    in_atomic: Vec<bool>,
     /// Set by `abort_and_join`: parked threads unwind, yield points no longer stop.
     aborting: bool,
     /// Number of yield points passed (visible or not) — the global step clock.
@@ -171,6 +177,8 @@ impl Sched {
                 visible: [true; 256],
                 wake_choice: None,
                 last_woken: Vec::new(),
+                atomic: None,
+                in_atomic: Vec::new(),
                 aborting: false,
                 clock: 0,
             }),
@@ -185,6 +193,16 @@ impl Sched {
         for &s in sites {
             g.visible[s as usize & 255] = true;
         }
+    }
+
+    /// Declares the enter/exit marker sites of atomic sections (see `Inner::atomic`).
+    pub fn set_atomic_section(&self, enter: u32, exit: u32) {
+        self.inner.borrow_mut().atomic = Some((enter, exit));
+    }
+
+    /// Is `tid` inside an atomic section (between its enter and exit markers)?
+    pub fn in_atomic(&self, tid: usize) -> bool {
+        self.inner.borrow().in_atomic[tid]
     }
 
     /// Global step clock (number of yield points passed so far).
@@ -216,6 +234,14 @@ impl Sched {
                 drop(g);
                 panic::resume_unwind(Box::new(AbortToken));
             }
+            if let Some((_, exit)) = g.atomic {
+                if g.in_atomic[tid] {
+                    if site == exit {
+                        g.in_atomic[tid] = false;
+                    }
+                    return;
+                }
+            }
             if !g.visible[site as usize & 255] {
                 return;
             }
@@ -224,7 +250,13 @@ impl Sched {
         if !self.yield_to_controller(tid) {
             panic::resume_unwind(Box::new(AbortToken));
         }
-        self.inner.borrow_mut().st[tid] = Status::Running;
+        let mut g = self.inner.borrow_mut();
+        g.st[tid] = Status::Running;
+        if let Some((enter, _)) = g.atomic {
+            if site == enter {
+                g.in_atomic[tid] = true;
+            }
+        }
     }
 
     fn futex_wait(&self, tid: usize, addr: usize, val: u32) {
@@ -286,6 +318,7 @@ impl Sched {
             let mut g = self.inner.borrow_mut();
             g.st.push(Status::Fresh);
             g.yielders.push(std::ptr::null());
+            g.in_atomic.push(false);
             g.st.len() - 1
         };
         let me: *const Sched = Rc::as_ptr(self);
